@@ -20,7 +20,7 @@ pub fn check() -> Check {
         rule: "Exhaustive over all 1,112,031 scalar values >= U+0020 except U+007F. (a) for each scalar, alone and between neighbours of every encoded length ({none, a, e-acute, bitcoin sign, G-clef} on each side, 25 contexts): \
                encode_utf8, char_pop_front, char_count, char_byte_index at every index, common_prefix_len against a sibling and the input decoder are compared with std's UTF-8 functions. \
                (b) through a whole Cli: typed between neighbours, moved over with Left/Right, deleted with Backspace, retyped, submitted inside a command name, as an argument and in a short-option cluster, recalled with Up, edited (Backspace, retype, Left, Right) and resubmitted, recalled again next to its own proper prefix, redrawn through set_prompt and left alone by Tab while the cursor stands left of it (terminal emulator), and rendered in `unexpected option: -X` by a derived command; echo bytes equal typed bytes. \
-               Quick runs (b) for every scalar in one neighbour context (rotating through the 25 contexts, rotation offset = seed) and in all 25 for encoded-length boundaries and the special characters; thorough runs all 25 contexts for every scalar. \
+               Quick runs (b) for every scalar in five of the 25 neighbour contexts (one left neighbour, rotating with the scalar and the seed, with every right neighbour) and in all 25 for encoded-length boundaries and the special characters; thorough runs all 25 contexts for every scalar. \
                Every scalar is non-trivial; distinct by scalar value (counted once per scalar that passed).",
         assumptions: &[
             "U+007F (DEL) is left open by the property and never typed",
@@ -313,7 +313,10 @@ fn full(c: char, with_cli: bool, all_ctx: bool, rot: usize) -> Result<(), (Strin
                 }
             }
         } else {
-            check_cli(c, NEIGH[k / 5], NEIGH[k % 5])?;
+            // five of the 25 contexts per scalar in the quick tier: one left neighbour with every right neighbour
+            for r in NEIGH {
+                check_cli(c, NEIGH[k / 5], r)?;
+            }
         }
         check_error_rendering(c)?;
     }
@@ -354,7 +357,7 @@ fn run_shard(ctx: &ShardCtx) {
     }
     ctx.class_n("scalars through the whole Cli", cli_n);
     ctx.exhaustive("all scalar values >= U+0020 except U+007F (utils + decoder)", !ctx.failed());
-    ctx.exhaustive("all scalar values through the Cli (one neighbour context each)", !ctx.failed());
+    ctx.exhaustive("all scalar values through the Cli (five neighbour contexts each)", !ctx.failed());
     if all_ctx {
         ctx.exhaustive("all scalar values x 25 neighbour contexts through the Cli", !ctx.failed());
     }
